@@ -155,7 +155,15 @@ func runSolver(s solverCfg, timeout int, file string) (string, string, float64) 
 	_ = cmd.Run()
 	secs := time.Since(t0).Seconds()
 	text := out.String()
-	line := strings.TrimSpace(strings.SplitN(text, "\n", 2)[0])
+	line := ""
+	for _, l := range strings.Split(text, "\n") {
+		l = strings.TrimSpace(l)
+		if l == "" || strings.HasPrefix(l, "WARNING") {
+			continue // e.g. z3: 'if' cannot be used in patterns
+		}
+		line = l
+		break
+	}
 	switch line {
 	case "unsat", "sat", "unknown":
 		return line, text, secs
@@ -182,6 +190,29 @@ func (u *Universe) discharge(o *Obl, dir string, idx int, timeout int, needTwo b
 		r.Status, r.Solver, r.Secs, r.AllSecs, r.Output = st, solvers[0].name, secs, secs, firstLines(out, 3)
 		r.Tried = append(r.Tried, fmt.Sprintf("%s=%s(%.2fs)", solvers[0].name, st, secs))
 		return r
+	}
+	// First try with the cone of influence of the goal only: dropping hypotheses is
+	// sound for a proof, and large irrelevant prefixes drown the solvers.
+	if po := pruneObl(o); po != nil {
+		pfile := filepath.Join(dir, fmt.Sprintf("p%05d.smt2", idx))
+		if err := os.WriteFile(pfile, []byte(u.oblText(po, false)), 0o644); err == nil {
+			for _, s := range solvers[:2] {
+				pt := timeout / 2
+				if pt < 3 {
+					pt = 3
+				}
+				st, _, secs := runSolver(s, pt, pfile)
+				r.AllSecs += secs
+				r.Tried = append(r.Tried, fmt.Sprintf("%s[pruned]=%s(%.2fs)", s.name, st, secs))
+				if st == "unsat" {
+					r.Agree++
+					r.Status, r.Solver, r.Secs = "unsat", s.name+"[pruned]", secs
+					if !needTwo || r.Agree >= 2 {
+						return r
+					}
+				}
+			}
+		}
 	}
 	for _, s := range solvers {
 		st, out, secs := runSolver(s, timeout, file)
